@@ -29,10 +29,21 @@ structure Facts where
   naoIsOSError : Bool
   /-- `issubclass(asyncio.CancelledError, OSError)` -/
   cancelIsOSError : Bool
+  /-- the try around `start_server` has a clause of its own for the cancellation that puts the port back
+      with its old priority and re-raises -/
+  cancelPutsBack : Bool := false
   deriving DecidableEq, Repr
 
+/-- is a cancellation inside the awaited start-up met by some clause that gives the port back? -/
+def Facts.cancelCaught (f : Facts) : Bool := f.cancelIsOSError || f.cancelPutsBack
+
+/-- the priority the port goes back with: `priority + 1` through `except OSError`, `priority` through the
+    cancellation clause -/
+def Facts.cancelReturn (f : Facts) (prio : Nat) : Nat := if f.cancelIsOSError then prio + 1 else prio
+
 /-- the facts of the tree under check (translator output) -/
-def facts : Facts := ⟨Generated.noAvailablePortIsOSError, Generated.cancelledIsOSError⟩
+def facts : Facts :=
+  ⟨Generated.noAvailablePortIsOSError, Generated.cancelledIsOSError, Generated.passiveCancelReturnsPort⟩
 
 /-- Python tuple order on `(priority, port)` (what `heapq` compares) -/
 def Item.le (a b : Item) : Bool := a.1 < b.1 || (a.1 == b.1 && a.2 ≤ b.2)
@@ -166,8 +177,8 @@ def step (f : Facts) (st : State) : Event → State × Reply
     match st.sessions[i]? with
     | some .idle => (setPhase st i .gone st.pool, .none)
     | some (.starting _ prio p) =>
-      -- CancelledError raised at the `await`: only `except OSError` could give the port back
-      if f.cancelIsOSError then (setPhase st i .gone (put (prio + 1, p) st.pool), .none)
+      -- CancelledError raised at the `await`: `except OSError` (never) or a clause of its own gives the port back
+      if f.cancelCaught then (setPhase st i .gone (put (f.cancelReturn prio, p) st.pool), .none)
       else (setPhase st i .gone st.pool, .none)
     | some (.listening p) => (setPhase st i .gone (put (0, p) st.pool), .none)  -- finally: put_nowait((0, port))
     | _ => (st, .none)
@@ -202,11 +213,11 @@ def held (st : State) (p : Port) : Nat := (st.sessions.map (·.holdsN p)).sum
 def inPool (st : State) (p : Port) : Nat := (poolPorts st).count p
 
 /-- the port an event makes disappear: the session is cancelled while suspended in `start_server` and
-    `CancelledError` is not an `OSError` -/
+    no clause meets the cancellation -/
 def lossOf (f : Facts) (st : State) : Event → Option Port
   | .finish i =>
     match st.sessions[i]? with
-    | some (.starting _ _ p) => if f.cancelIsOSError then none else some p
+    | some (.starting _ _ p) => if f.cancelCaught then none else some p
     | _ => none
   | _ => none
 
